@@ -2,7 +2,15 @@
 META = {"explanation": "see harness/C17_pending.c", "outside": ["real thread interleavings, condition-variable hand-off between several blocked threads", "timer arithmetic", "send path (message marshalling, outgoing queue)"]}
 PRE_NAME = ["nothing", "reply", "timeout", "cancel"]; PRE_VAL = [4, 0, 1, 2]
 def jobs(tier):
-    return _core() + _block()
+    return _core() + _block() + _inf()
+def _inf():
+    # calls without a timeout (DBUS_TIMEOUT_INFINITE): no timer exists, 'timeout installed' is false from the start — cancel and reply must behave the same
+    J = []
+    for j in _core():
+        if j.name.startswith('two_events.'):
+            j.name = j.name.replace('two_events.', 'two_events.inf.'); j.group = 'C17.inf'; j.defines = dict(j.defines, TMO=0x7fffffff)
+            j.bounds = j.bounds + '; calls made with DBUS_TIMEOUT_INFINITE'; j.shape = j.shape + ', infinite timeout'; J.append(j)
+    return J
 def _core():
     return [Job(name=f"{'close.after_' + PRE_NAME[c - 1] if c else 'two_events'}.N{n}", group="C17.close" if c else "C17.core", harness="harness/C17_pending.c", defines=dict({"NCALLS": n}, **({"WITH_CLOSE": 1, "PRE": PRE_VAL[c - 1]} if c else {})), real=["dbus/dbus-list.c"],
                 env=["assert_stubs.c", "pool_lock.c"], checks="assert", unwind=6, unwindset=["strcmp.0:64", "vf_streq.0:64"], timeout=1200, mem_gb=20,
